@@ -9,7 +9,7 @@ def _load(name):
 _c15 = _load('C15')
 N52H = 'bluetoe/bindings/nordic/nrf52/include/bluetoe/nrf52.hpp'
 N52C = 'bluetoe/bindings/nordic/nrf52/nrf52.cpp'
-UNITS = [dict(u, enforce=['received', 'acknowledge_bool', 'acknowledge_pdu', 'next_transmit']) for u in _c15.UNITS if u['name'] == 'llbuf']
+UNITS = [dict(u, enforce=['received', 'acknowledge_bool']) for u in _c15.UNITS if u['name'] == 'llbuf']
 RULES = [(r'details::write_32bit', 'write_32bit', '*')]
 UNITS.append(dict(name='counter',
     extracts=dict(BITS32_EXTRACTS,
